@@ -178,6 +178,14 @@ class RegSystem:
             pb = joint.condition_on(jnp.arange(Dw, Dw + n)).condition_on_x(J(yst[None]))
             ctx.close("routeB.mu", np.asarray(pb.mu)[0], mu, facts=facts)
             ctx.close("routeB.Sigma", np.asarray(pb.Sigma)[0], Sig, facts=facts)
+            # the same coordinate conditioning with the free (parameter) coordinates requested explicitly in REVERSED order
+            # and the observed ones in a rotated order
+            fx = list(range(Dw))[::-1]
+            fy = list(range(Dw, Dw + n))
+            fy = fy[1:] + fy[:1]
+            pe = joint.condition_on_explicit(jnp.array(fy), jnp.array(fx)).condition_on_x(J(yst[[k - Dw for k in fy]][None]))
+            ctx.close("routeB.explicit.mu", np.asarray(pe.mu)[0], mu[fx], facts=facts)
+            ctx.close("routeB.explicit.Sigma", np.asarray(pe.Sigma)[0], Sig[np.ix_(fx, fx)], facts=facts)
             evb = float(np.asarray(joint.get_marginal(jnp.arange(Dw, Dw + n)).evaluate_ln(J(yst[None])))[0, 0])
             ctx.close("routeB.evidence", np.array([evb]), np.array([ev]), facts=facts)
         with ctx.guard("routeC.call", facts):
